@@ -162,13 +162,13 @@ func H_C07(entry, cenc, renc, kind, provider int) {
 	if preset {
 		rec.hdr.Set("Content-Encoding", "identity")
 	}
+	fp := verifFingerprint(c)
 	if nondetBool("warmup") {
 		c.Dispatch(vNewRec(), vHdrReq("GET", "/t/w", map[string]string{"Accept-Encoding": "gzip"}))
 		verifCover("after-warmup")
 	}
 	req := vHdrReq("GET", path, map[string]string{"Accept-Encoding": ae})
 	escaped := false
-	fp := verifFingerprint(c)
 	verifFrameBegin("serve", led, rec, &expected, &recovered, &escaped)
 	defer func() {
 		verifAssert(verifFingerprint(c) == fp, "native: C07: serving a request changed the container's configuration")
